@@ -2318,4 +2318,61 @@ theorem run_ri (n : Nat) (s : St) (h : RI s) : RI (run n s) := by
   | zero => exact h
   | succ n ih => unfold run; exact ih _ (step_ri s h)
 
+theorem initSt_ri (progs : List (List Op)) (ties : List Nat) : RI (initSt progs ties) := by
+  have hact : ∀ a, (initSt progs ties).k.actor a = dfltActor ∨
+      ∃ p, (initSt progs ties).k.actor a = ({ prog := p } : Actor) := by
+    intro a
+    simp only [initSt, K.actor, List.getD_eq_getElem?_getD, List.getElem?_map]
+    cases progs[a]? with
+    | none => left; rfl
+    | some p => right; exact ⟨p, rfl⟩
+  have har : ∀ a, ((initSt progs ties).k.arF a) = dfltActor.ar := by
+    intro a
+    show ((initSt progs ties).k.actor a).ar = _
+    rcases hact a with h | ⟨p, h⟩ <;> rw [h] <;> rfl
+  have hsim : ∀ i, (initSt progs ties).k.simF i = [] := by
+    intro i; simp [initSt, K.simF, K.impl]
+  constructor
+  · refine ⟨?_, ?_, ?_, ?_, ?_, ?_, ?_, ?_, ?_, ?_, ?_, ?_⟩
+    · intro a i _; rw [hsim, har]; rfl
+    · intro a _ _; rw [har]; exact ⟨rfl, rfl⟩
+    · intro a _; rw [har]; left; simp [dfltActor, Actor.ar]
+    · intro t ht; simp [initSt] at ht
+    · simp [initSt]
+    · intro t ht; simp [initSt] at ht
+    · intro a id hid; rw [har] at hid; cases hid
+    · intro a id hid; rw [har] at hid; cases hid
+    · intro a i hi; rw [har] at hi; simp [dfltActor, Actor.ar] at hi
+    · intro a i hi; rw [har] at hi; simp [dfltActor, Actor.ar] at hi
+    · intro a hr; rw [har] at hr; simp [dfltActor, Actor.ar] at hr
+    · intro a _ hp; rw [har] at hp; simp [dfltActor, Actor.ar] at hp
+  · intro a _
+    right
+    rcases hact a with h | ⟨p, h⟩ <;> rw [h] <;> rfl
+
+/-- **no stale registration**, unfolded: in every reachable state, for every actor `a` that is not dying -/
+theorem reachable_registration (progs : List (List Op)) (ties : List Nat) (fuel : Nat) (a : Nat)
+    (hwd : ((run fuel (initSt progs ties)).k.actor a).wannadie = false) :
+    let k := (run fuel (initSt progs ties)).k
+    -- registered on activity i exactly as many times as i is in its waiting_synchros_
+    (∀ i, (k.impl i).simcalls.count a = (k.actor a).waiting.count i) ∧
+    -- not in a (handled) simcall: registered nowhere, no timeout timer
+    ((k.actor a).idle = true → (∀ i, a ∉ (k.impl i).simcalls) ∧ (k.actor a).tcb = none ∧
+        ∀ t ∈ k.timers, cbActor t.cb ≠ some a) ∧
+    -- in a simcall: on at most one activity, or (wait_any) on a sub-multiset of the activities of the simcall
+    ((k.actor a).waiting.length ≤ 1 ∨ ∀ j, (k.actor a).waiting.count j ≤ (k.actor a).anyList.count j) ∧
+    -- a simcall that has not been handled yet belongs to an actor blocked in it
+    ((k.actor a).pending.isSome = true → (k.actor a).blocked = true) := by
+  have h := (run_ri fuel _ (initSt_ri progs ties)).reg
+  refine ⟨fun i => h.cnt a i hwd, ?_, h.shape a hwd, h.pb a hwd⟩
+  intro hid
+  obtain ⟨h1, h2⟩ := h.idle a hwd hid
+  refine ⟨?_, h2, NT_of_tcb_none h a h2⟩
+  intro i hi
+  have := h.cnt a i hwd
+  have hw : ((run fuel (initSt progs ties)).k.arF a).waiting = [] := h1
+  rw [hw] at this
+  have hp : 0 < ((run fuel (initSt progs ties)).k.simF i).count a := List.count_pos_iff.mpr hi
+  simp at this; omega
+
 end SgVerif.TimeCore
